@@ -60,9 +60,9 @@ def floors(tier):
     f = {
         "oracle.closure-sandwich": 20000 if tier == "quick" else 500000,
         "oracle.terminates": 20000 if tier == "quick" else 500000,
-        "counters.exh.n1": G.exh_size(1), "counters.exh.n2": G.exh_size(2),
-        "counters.exh.n3.plain": G.exh_plain_size(3),
-        "counters.exh.n3.redirect": 6000 if tier == "quick" else G.exh_size(3) - G.exh_plain_size(3),
+        "counters.exh.n1.graphs": G.exh_size(1), "counters.exh.n2.graphs": G.exh_size(2),
+        "counters.exh.n3.plain.graphs": G.exh_plain_size(3),
+        "counters.exh.n3.redirect.graphs": 6000 if tier == "quick" else G.exh_size(3) - G.exh_plain_size(3),
         "counters.random.graphs": 12000 if tier == "quick" else 250000,
         "counters.graph.cyclic": 3000, "counters.graph.self-inclusion": 1000, "counters.graph.multipath": 1000,
         "counters.model.propagated": 5000, "counters.model.redirect-source-marked": 500,
@@ -142,7 +142,7 @@ def judge(graph, got):
             sorted(missed), {t: m["why"][t] for t in sorted(missed)})))
     if over:
         red = {p["t"] for p in graph["pages"] if p["r"] is not None}
-        cat = "unknown-title" if over - m["titles"] else ("plain-template" if over - red else "redirect-page")
+        cat = "unknown-title" if over - m["titles"] else ("redirect-page" if over & red else "plain-template")
         probs.append(("overmarked", cat, "marked but outside every reading of the closure: %s" % sorted(over)))
     return m, probs
 
